@@ -21,10 +21,11 @@ import threading
 
 from harness.common import fakeproc
 from harness.common.shrink import ddmin
-from harness.props import c16_facts, c16_rec
+from harness.props import c16_act, c16_facts, c16_rec
 
 PROP = "C16"
-DRIVER_MODULES = ["PsutilModel.Model.C16Gen", "PsutilModel.Spec.C16", "PsutilModel.Model.C16RecGen", "PsutilModel.Spec.C16Rec"]
+DRIVER_MODULES = ["PsutilModel.Model.C16Gen", "PsutilModel.Spec.C16", "PsutilModel.Model.C16RecGen", "PsutilModel.Spec.C16Rec",
+                  "PsutilModel.Model.C16ActGen", "PsutilModel.Spec.C16Act"]
 NEEDS_EXT = True
 TRUSTED = [
     "C16 world model: contents are abstracted to version numbers (decoding is C06/C13's business); /proc/<pid>/stat is always readable; a gone process never comes back and a zombie never revives (PID reuse: C01/C02); a zombie's smaps and cmdline are empty files (measured, DESIGN A.8); smaps_rollup does not exist in the modelled world (the documented fallback to smaps is what is exercised)",
@@ -49,6 +50,7 @@ ASSUMPTIONS = [
 def facts(snap, F):
     c16_facts.facts(snap, F)
     c16_rec.facts(snap, F)          # record objects: helperReturns, statParse, recConsumers, recRoutes
+    c16_act.facts(snap, F)          # calls of any shape: cacheOpSites
 
 
 SRCS = ["stat", "status", "smaps", "statm", "cmdline", "io", "smaps_rollup"]      # order = Driver/C16.lean allSrc
@@ -1102,6 +1104,9 @@ def correspond(ctx, res):
         t_rec = time.time()
         c16_rec.correspond_records(ctx, impl, res)
         phase["records"] = round(time.time() - t_rec, 1)
+        t_act = time.time()
+        c16_act.correspond_act(ctx, impl, res)
+        phase["call_shapes"] = round(time.time() - t_act, 1)
         res.count("probe_opens_total", impl.total_probes + impl.probes)
         res.exhaustive = ("all %d well-nested histories of length <= %d over {enter, exit, exit-by-exception, name(), "
                           "ppid(), new stat content}; as_dict(attrs) for all %d combinations of {every %s of the universe %s} x "
@@ -1112,6 +1117,8 @@ def correspond(ctx, res):
                              ENUM_UNIVERSE, NONCOLL))
         if res.extra.get("rec_exhaustive"):
             res.exhaustive += "; records: " + res.extra["rec_exhaustive"]
+        if res.extra.get("act_exhaustive"):
+            res.exhaustive += "; call shapes: " + res.extra["act_exhaustive"]
         res.extra["driver_lines"] = total_lines
     finally:
         impl.close()
@@ -1165,6 +1172,12 @@ def shrink(ctx, d):
             impl.close()
     if "pair_sweep" in d["input"]:
         return d
+    if "act" in d["input"]:
+        impl = Impl(ctx)
+        try:
+            return c16_act.shrink(ctx, impl, d)
+        finally:
+            impl.close()
     hist = d["input"].get("history")
     if not hist:
         return d
@@ -1196,6 +1209,13 @@ def replay(ctx, rp, res):
             if not isinstance(r, dict):
                 return True
             return c16_rec.fails(ctx, impl, r["line"], r["hist"])[0]
+        finally:
+            impl.close()
+    if "act" in rp["input"]:
+        impl = Impl(ctx)
+        try:
+            a = rp["input"]["act"]
+            return c16_act.fails(ctx, impl, a["w"], a["hist"])[0]
         finally:
             impl.close()
     if "allnames" in rp["input"] or "valid_names" in rp["input"]:
